@@ -19,3 +19,13 @@ for m, q, f in ctx.repo.functions():
         out['%s.%s' % (m.name, q)] = le
 json.dump(out, open(callsigs.LOOPEXITS_REF, 'w'), indent=0, sort_keys=True)
 print(sum(len(v) for v in out.values()), 'loop exits in', len(out), 'functions')
+# sibling arms reference (pairs with token similarity >= 0.6)
+out = {}
+for m, q, f in ctx.repo.functions():
+    if m.name in ('cencoding', 'speedups'):
+        continue
+    d = {t: diff for t, ratio, diff, node in callsigs.sibling_pairs(f) if ratio >= 0.6}
+    if d:
+        out['%s.%s' % (m.name, q)] = d
+json.dump(out, open(callsigs.SIBLINGS_REF, 'w'), indent=0, sort_keys=True)
+print(sum(len(v) for v in out.values()), 'sibling pairs in', len(out), 'functions')
